@@ -172,6 +172,11 @@ enum { W_NONE = 0, W_ACCT = 1, W_CACHE = 2, W_MLA = 3 };
 enum { K_GLOBAL = 0, K_REALLOC = 1, K_MLA = 2 };
 const char* ALLOC_NAME[] = {"new", "new[]", "malloc"};
 const char* REL_NAME[] = {"delete", "delete[]", "free"};
+// every releasing form the library overloads (sized forms: C++14 and later; nothrow forms: with the standard library)
+enum { NRFORMS = 12 };
+const int RFORM_FAM[NRFORMS] = {0, 1, 2, 2, 0, 1, 0, 1, 0, 1, 0, 1};
+const char* RFORM_NAME[NRFORMS] = {"delete", "delete[]", "free", "realloc", "delete(nothrow)", "delete[](nothrow)", "delete(sized)", "delete[](sized)",
+                                  "delete(file,int)", "delete[](file,int)", "delete(file,size_t)", "delete[](file,size_t)"};
 // every allocating form of the global routing table
 enum { NFORMS = 8 };
 const int FORM_FAM[NFORMS] = {0, 1, 0, 1, 0, 1, 2, 2};
@@ -307,6 +312,31 @@ struct Env {
             g_fail_realloc = variant == 0;
             r = cpputest_realloc_location(addr, variant ? (size_t)-5 : cursize + 3, "free.c", 24);
             g_fail_realloc = false;
+        }
+        return r;
+    }
+    // release through one of the global release forms, with whatever allocator is current; returns realloc's result
+    void* release_form(int rform, void* addr, size_t cursize) {
+        rep.reset();
+        det->outputBuffer_.clear();
+        void* r = nullptr;
+        vf::ctx(RFORM_NAME[rform]);
+        {
+            Window win;
+            switch (rform) {
+            case 0: operator delete(addr); break;
+            case 1: operator delete[](addr); break;
+            case 2: cpputest_free_location(addr, "free.c", 22); break;
+            case 3: r = cpputest_realloc_location(addr, cursize + 4, "free.c", 23); break;
+            case 4: operator delete(addr, std::nothrow); break;
+            case 5: operator delete[](addr, std::nothrow); break;
+            case 6: operator delete(addr, cursize); break;
+            case 7: operator delete[](addr, cursize); break;
+            case 8: operator delete(addr, "free.c", (int)25); break;
+            case 9: operator delete[](addr, "free.c", (int)26); break;
+            case 10: operator delete(addr, "free.c", (size_t)27); break;
+            default: operator delete[](addr, "free.c", (size_t)28); break;
+            }
         }
         return r;
     }
@@ -735,8 +765,9 @@ struct Routing {
 struct Pending { char sig[96]; char detail[1700]; };
 void routing_case(vf::Chooser& ch, int depth_before, int depth_between, int depth_total) {
     ch.c.reserve(256); ch.n.reserve(256);
-    int T = ch.choose(2), gs = ch.choose(2), form = ch.choose(NFORMS), rc = ch.choose(4);      // rc: delete, delete[], free, realloc
-    int fa = FORM_FAM[form], fr = rc == 3 ? MAL : rc, kind = rc == 3 ? K_REALLOC : K_GLOBAL;
+    int T = ch.choose(2), gs = ch.choose(2), form = ch.choose(NFORMS), rc = ch.choose(NRFORMS);
+    int fa = FORM_FAM[form], fr = RFORM_FAM[rc], kind = rc == 3 ? K_REALLOC : K_GLOBAL;
+    const char* rname = RFORM_NAME[rc];
     Env env(T != 0);
     env.route_only = true; env.qual = "/routed";
     Routing ro;
@@ -797,9 +828,9 @@ void routing_case(vf::Chooser& ch, int depth_before, int depth_between, int dept
     history(depth_total - used < depth_between ? depth_total - used : depth_between, true);
     bool changed = guard_changed(b);
     if (!ended) {
-        say("%s(p)", chan_name(kind, fr));
+        say("%s(p)", rname);
         env.watch(b);
-        env.release(kind, fr, W_NONE, b.p, 9);
+        env.release_form(rc, b.p, b.size);
     }
     Reporter seen = env.rep;                       // what the judged release produced
     Watch w = g_watch; g_watch.armed = false;
@@ -817,10 +848,10 @@ void routing_case(vf::Chooser& ch, int depth_before, int depth_between, int dept
         return;
     }
     Cat want = reference(true, false, fa, fr, T != 0, changed);
-    env.judge(chan_name(kind, fr), false, want, desc);
-    const char* pv = kind == K_GLOBAL ? env.poison_verdict(chan_name(kind, fr), false, desc) : "n/a";
+    env.judge(rname, false, want, desc);
+    const char* pv = kind == K_GLOBAL ? env.poison_verdict(rname, false, desc) : "n/a";
     env.anomalies();
-    vf::outcome(vf::fmt("%s<-%s %s %s slots %d%d%d ts=%d", chan_name(kind, fr), FORM_NAME[form], CAT[want], pv, ro.slot[0], ro.slot[1], ro.slot[2], ro.threadsafe_table));
+    vf::outcome(vf::fmt("%s<-%s %s %s slots %d%d%d ts=%d", rname, FORM_NAME[form], CAT[want], pv, ro.slot[0], ro.slot[1], ro.slot[2], ro.threadsafe_table));
     if (nops && want != C_NONE) vf::count("nontrivial");
     vf::count("ops", nops + 2);
     if (vf::want_sample()) vf::sample(desc());
@@ -1195,7 +1226,7 @@ int main(int argc, char** argv) {
     vf::require_outcomes("hist", 20);
 
     int rb = 2, rbt = 2, rtot = TH ? 4 : 3;
-    vf::info("routing.bound", vf::fmt("8 allocating forms of the routing table (new, new[], new(nothrow), new[](nothrow), new(size,file,line), new[](size,file,line), malloc, realloc(NULL)) x 4 releasing entry points (delete, delete[], free, realloc) through the global routing only x type checking on/off x guard {intact, one byte changed} x every history of <= %d manipulations before the allocation x every history of <= %d between allocation and release (together <= %d), over {GlobalMemoryAllocatorStash save, restore; setCurrent{New,NewArray,Malloc}Allocator(custom allocator of that family); setCurrent{New,NewArray,Malloc}AllocatorToDefault; GlobalMemoryAccountant start, stop (only where the documented usage allows them); saveAndDisableNewDeleteOverloads+restoreNewDeleteOverloads; turnOffNewDeleteOverloads+turnOnDefaultNotThreadSafeNewDeleteOverloads; turnOnThreadSafeNewDeleteOverloads; between allocation and release also: a cpputest_realloc of the block that the platform fails, a cpputest_realloc to size_t(-5)}; the overload table is switched on once per case and afterwards touched by these manipulations only; after every manipulation the three current allocators are compared with a slot model", rb, rbt, rtot));
+    vf::info("routing.bound", vf::fmt("8 allocating forms of the routing table (new, new[], new(nothrow), new[](nothrow), new(size,file,line), new[](size,file,line), malloc, realloc(NULL)) x 12 releasing forms (delete, delete[], their nothrow, sized, (file,int line) and (file,size_t line) forms, free, realloc) through the global routing only x type checking on/off x guard {intact, one byte changed} x every history of <= %d manipulations before the allocation x every history of <= %d between allocation and release (together <= %d), over {GlobalMemoryAllocatorStash save, restore; setCurrent{New,NewArray,Malloc}Allocator(custom allocator of that family); setCurrent{New,NewArray,Malloc}AllocatorToDefault; GlobalMemoryAccountant start, stop (only where the documented usage allows them); saveAndDisableNewDeleteOverloads+restoreNewDeleteOverloads; turnOffNewDeleteOverloads+turnOnDefaultNotThreadSafeNewDeleteOverloads; turnOnThreadSafeNewDeleteOverloads; between allocation and release also: a cpputest_realloc of the block that the platform fails, a cpputest_realloc to size_t(-5)}; the overload table is switched on once per case and afterwards touched by these manipulations only; after every manipulation the three current allocators are compared with a slot model", rb, rbt, rtot));
     vf::section_dfs("routing", 4, false, [&](vf::Chooser& ch) { routing_case(ch, rb, rbt, rtot); });
     vf::require_outcomes("routing", 40);
 
